@@ -676,6 +676,12 @@ pub fn run_sweep(name: &str, tier: &str, chunk: u64, nchunks: u64, res: &mut Wor
                 // the key held a longer and a shorter value before: a size recorded for an earlier value must not leak
                 let _ = check_range(&mut ctx, l + 17, 0, 1);
                 let _ = check_range(&mut ctx, l / 2, 0, 1);
+                // and a stale file with other bytes sits at the path the value is going to get (left by an earlier crash)
+                if l <= 20_000 {
+                    let p = ctx.dir.join("cas").join(ondisk::path_of_hash(&b3(&pattern(l))));
+                    std::fs::create_dir_all(p.parent().unwrap()).unwrap();
+                    std::fs::write(&p, b"stale").unwrap();
+                }
                 for &s in &pts {
                     for &e in &pts {
                         let f = check_range(&mut ctx, l, s, e);
